@@ -1055,7 +1055,33 @@ func (ns Nodes) Sort(o NodeOrder) error {
 // compareNodes compares two nodes to provide a deterministic ordering
 // between them. Two nodes cannot have the same Node.Info value.
 func compareNodes(l, r *Node) bool {
-	return fmt.Sprint(l.Info) < fmt.Sprint(r.Info)
+	if ls, rs := fmt.Sprint(l.Info), fmt.Sprint(r.Info); ls != rs {
+		return ls < rs
+	}
+	// Distinct infos whose fields contain spaces can print alike:
+	// compare them field by field.
+	if l.Info.Name != r.Info.Name {
+		return l.Info.Name < r.Info.Name
+	}
+	if l.Info.OrigName != r.Info.OrigName {
+		return l.Info.OrigName < r.Info.OrigName
+	}
+	if l.Info.Address != r.Info.Address {
+		return l.Info.Address < r.Info.Address
+	}
+	if l.Info.File != r.Info.File {
+		return l.Info.File < r.Info.File
+	}
+	if l.Info.StartLine != r.Info.StartLine {
+		return l.Info.StartLine < r.Info.StartLine
+	}
+	if l.Info.Lineno != r.Info.Lineno {
+		return l.Info.Lineno < r.Info.Lineno
+	}
+	if l.Info.Columnno != r.Info.Columnno {
+		return l.Info.Columnno < r.Info.Columnno
+	}
+	return l.Info.Objfile < r.Info.Objfile
 }
 
 // entropyScore computes a score for a node representing how important
@@ -1179,10 +1205,10 @@ func (el edgeList) Less(i, j int) bool {
 	// Distinct nodes may print the same name (e.g. same function at
 	// different addresses): fall back to the full node info, as
 	// compareNodes does.
-	if s1, s2 := fmt.Sprint(el[i].Src.Info), fmt.Sprint(el[j].Src.Info); s1 != s2 {
-		return s1 < s2
+	if el[i].Src.Info != el[j].Src.Info {
+		return compareNodes(el[i].Src, el[j].Src)
 	}
-	return fmt.Sprint(el[i].Dest.Info) < fmt.Sprint(el[j].Dest.Info)
+	return compareNodes(el[i].Dest, el[j].Dest)
 }
 
 func (el edgeList) Swap(i, j int) {
